@@ -328,3 +328,20 @@ def register(reg):
                      modifies=PRIM_MOD + ['state.status_qa_info_follows', 'dict(state.bitmap_links)', '%s.pos' % CUR],
                      ensures=marker_ensures, cases=marker_cases, raises=ERRS, serves=serves,
                      note='k-th bitmapped value -> element of the k-th zero bit; 225255: width + 1, reference -2**width'))
+
+    # ------------------------------------------------------------------------------------------------------------
+    def v(j):
+        return 'select(values, %s)' % j
+
+    def mm_inv(k):
+        return ['is_none(mn) == forall(j, 0, %s, is_none(%s))' % (k, v('j')), 'is_none(mx) == is_none(mn)',
+                'implies(not is_none(mn), is_int(mn) and is_int(mx))',
+                'implies(not is_none(mn), forall(j, 0, %s, implies(not is_none(%s), ival(mn) <= ival(%s) and ival(%s) <= ival(mx))))' % (k, v('j'), v('j'), v('j')),
+                'implies(not is_none(mn), exists(j, 0, %s, val_eq(%s, mn)) and exists(j, 0, %s, val_eq(%s, mx)))' % (k, v('j'), k, v('j'))]
+    add(Contract(M + 'CoderState.minmax', {'values': ListT(VAL)}, returns=TupleT(VAL, VAL),
+                 requires=['values != None', 'forall(j, 0, len(values), is_none(%s) or is_int(%s))' % (v('j'), v('j'))],
+                 locals={'mn': VAL, 'mx': VAL},
+                 loops={0: Loop(invariants=mm_inv('_i0'), locals={'v': VAL})},
+                 ensures=[x.replace('mn', 'result[0]').replace('mx', 'result[1]') for x in mm_inv('len(values)')],
+                 serves=['C02', 'C05'], pure=True,
+                 note='minimum and maximum of the entries that are not None; (None, None) when all are'))
